@@ -4,11 +4,15 @@ G  spec/AdjacencyGraph.tla, spec/AdjacencyPerm.tla -> every call with the result
    (spec/Rel.tla, spec/Adjacency.tla), replayed by harness/c19_adjacency.cpp and compared; spec/AdjacencyColor.tla does the
    same for Coloring objects built from explicit colour arrays (unused colours in the middle / at the end, no nodes):
    inspect, clone, create_partition_graph.
+   spec/AdjacencyOps.tla: expressions over OTHER adjactor classes than Graph (index-interval adjactors with
+   Adjactor::IndexImageIterator, CoarseFineCellMapping unstructured/structured, IndexSet, StructIndexSet, DynamicGraph) combined by
+   CompositeAdjactor - a, a*b, (a*b)*c, a*(b*c) - and pushed through every public route (iteration, Graph / DynamicGraph single- and
+   two-adjactor render constructors, DynamicGraph::compose); replayed by harness/c19_adj2.cpp, c19_adj3.cpp.
 V  spec/AdjacencyUG.tla enumerates every undirected graph x every colouring order / Cuthill-McKee option (results are
    not unique, so they are recorded, not predicted); a seeded random driver adds graphs up to 200 nodes; TLC judges
    every recorded result by the contracts of spec/Adjacency.tla (spec/AdjacencyV.tla).
 """
-import os, json, random
+import os, json, random, threading
 import concurrent.futures as cf
 import vlib
 
@@ -17,6 +21,38 @@ HARNESS = "c19_adjacency"
 GINV = "InputsValid LawSingle LawSort LawCompose LawInvolution LawPermute LawRename LawMatPerm LawDyn LawDyn2 LawDynEdit Emit"
 PINV = "ObjValid SwapLaw CtorLaw InverseLaw ConcatLaw Emit"
 MAXPAR = 5          # TLC processes at a time
+ADJ2, ADJ3 = "c19_adj2", "c19_adj3"
+AINV = "OpsValid LawExpr LawAssoc LawIdentity Emit"
+GEN = '{"graph", "interval", "indexset2", "dyn"}'      # operand kinds with free adjacency lists
+RIG = '{"block", "struct1", "cf2"}'                    # operand kinds determined by their size parameters
+NEST3 = ['{"graph"}', '{"interval"}', '{"struct1"}']   # kinds the harness supports in chains of three (c19_adj3)
+
+
+def adj_cfg(n, k1, k2, k3, nd, nm, ni, ml, slack, workers=2):
+    ks = " x ".join(k.strip("{}").replace('"', "").replace(", ", "|") for k in (k1, k2, k3)[:n])
+    return ("AdjacencyOps", 'N = %d K1 = %s K2 = %s K3 = %s Nests = {"both"} ND = %d NM = %d NI = %d MaxLen = %d MaxSlack = %d'
+            % (n, k1, k2 if n >= 2 else "{}", k3 if n >= 3 else "{}", nd, nm, ni, ml, slack), AINV,
+            "adjactor expressions %s nd<=%d nm<=%d ni<=%d len<=%d slack<=%d" % (ks, nd, nm, ni, ml, slack), workers, "a")
+
+
+def adj_configs(tier):
+    """operands of every adjactor class: alone, in pairs (every class x every class), nested in threes"""
+    all3 = "{" + ", ".join(k.strip("{}") for k in NEST3) + "}"
+    if tier == "thorough":
+        out = [adj_cfg(1, GEN, "", "", 3, 0, 3, 2, 0), adj_cfg(1, RIG, "", "", 4, 0, 16, 0, 0)]
+        out += [adj_cfg(2, k1, GEN, "", 2, 2, 3, 2, 0, 3) for k1 in ('{"graph"}', '{"interval"}', '{"indexset2"}', '{"dyn"}')]
+        out += [adj_cfg(2, GEN, GEN, "", 2, 2, 2, 1, 1, 3), adj_cfg(2, GEN, GEN, "", 1, 3, 2, 1, 0, 3)]
+        out += [adj_cfg(2, GEN, RIG, "", 2, 4, 16, 2, 1), adj_cfg(2, RIG, GEN, "", 2, 4, 2, 2, 0, 3), adj_cfg(2, RIG, RIG, "", 4, 8, 32, 0, 1, 1)]
+        out += [adj_cfg(3, k1, all3, all3, 2, 2, 2, 1, 0, 3) for k1 in NEST3]
+        out += [adj_cfg(3, k1, all3, all3, 1, 2, 2, 2, 0, 3) for k1 in NEST3]
+        out += [adj_cfg(3, all3, all3, all3, 1, 1, 2, 2, 1, 3)]
+    else:
+        out = [adj_cfg(1, GEN, "", "", 2, 0, 3, 2, 0, 1), adj_cfg(1, RIG, "", "", 4, 0, 16, 0, 0, 1)]
+        out += [adj_cfg(2, GEN, GEN, "", 1, 2, 3, 2, 0, 3), adj_cfg(2, GEN, GEN, "", 2, 2, 2, 1, 0), adj_cfg(2, GEN, GEN, "", 1, 1, 2, 2, 1, 1)]
+        out += [adj_cfg(2, GEN, RIG, "", 2, 2, 8, 2, 1, 1), adj_cfg(2, RIG, GEN, "", 2, 4, 2, 1, 0), adj_cfg(2, RIG, RIG, "", 4, 4, 16, 0, 1, 1)]
+        out += [adj_cfg(3, k1, all3, all3, 1, 2, 2, 1, 0) for k1 in NEST3]
+        out += [adj_cfg(3, all3, all3, all3, 1, 1, 1, 1, 1, 1)]
+    return out[::-1]          # the large enumerations first
 
 
 def graph_cfg(mode, nd, ni, nm, ml, ml2):
@@ -49,8 +85,9 @@ def gen_configs(tier):
     return out
 
 
-def run_tlc_jobs(chk, jobs):
-    """jobs: list of (module, constants, invariants, name, workers, tag) -> list of (tag, printed)"""
+def run_tlc_jobs(chk, jobs, consume=None):
+    """jobs: list of (module, constants, invariants, name, workers, tag) -> list of (tag, printed); the cases of the jobs with
+    tag "a" are handed to consume(job, printed) in the job's thread as soon as they exist and are not kept"""
     res = []
 
     def one(k, job):
@@ -59,7 +96,12 @@ def run_tlc_jobs(chk, jobs):
         with open(os.path.join(vlib.SPEC, cfg), "w") as f:
             f.write("SPECIFICATION Spec\nCONSTANTS %s\nINVARIANTS %s\nCHECK_DEADLOCK FALSE\n" % (consts, invs))
         try:
-            return vlib.tlc(mod, cfg, workers=workers, timeout=2400, xmx="4g", tag="C19_%d" % k)
+            r = vlib.tlc(mod, cfg, workers=workers, timeout=2400, xmx="4g", tag="C19_%d" % k)
+            if tag == "a" and consume is not None and r.printed and not r.violation:
+                r.ncases = len(r.printed)
+                consume(job, r.printed)
+                r.printed = [None]
+            return r
         finally:
             try:
                 os.remove(os.path.join(vlib.SPEC, cfg))
@@ -75,7 +117,8 @@ def run_tlc_jobs(chk, jobs):
                 chk.model_violation(r, "%s invariant (%s)" % (job[0], job[3]))
             if not r.printed:
                 raise vlib.MachineryError("generator %s (%s) produced no cases" % (job[0], job[3]))
-            res.append((job[5], r.printed))
+            if job[5] != "a":
+                res.append((job[5], r.printed))
     return res
 
 
@@ -187,6 +230,8 @@ def sig(c, r):
             s["sub"] = r["sub"]
         if c["op"] == "matperm":
             s["nnz0"] = len(c["g1"]["rep"]["ci"]) == 0
+    elif c["h"] == "a":
+        s.update({"kinds": "*".join(c["kinds"]), "nest": c["nest"], "sub": r.get("sub", "")})
     elif c["h"] == "p":
         s.update({"kind": c["kind"], "n": c["n"], "invert": c["invert"]})
     elif c["h"] == "c":
@@ -203,11 +248,15 @@ def sig(c, r):
 
 
 def key(c):
+    if c["h"] == "a":
+        return json.dumps([c["nest"], c["sl"], [[o["k"], o["nd"], o["ni"], o["a"], o["R"]] for o in c["ops"]]])
     d = {k: v for k, v in c.items() if k not in ("exp", "deg", "maxdeg", "ordered", "first_empty", "meta", "mode", "obj", "gap", "unused_at_end")}
     return json.dumps(d, sort_keys=True)
 
 
 def nontrivial(c):
+    if c["h"] == "a":
+        return any(len(row) > 0 for row in c["L"])
     if c["h"] == "g":
         g = c["g1"]
         return len(g.get("idx", g.get("rep", {}).get("ci", []))) > 0
@@ -253,8 +302,35 @@ def validate_records(chk, records):
 
 
 def run(chk):
-    binary, = vlib.build([HARNESS], jobs=4)
-    gen = run_tlc_jobs(chk, gen_configs(chk.tier))
+    # the three replayers are compiled while TLC generates
+    bex = cf.ThreadPoolExecutor(max_workers=1)
+    bfut = bex.submit(vlib.build, [HARNESS, ADJ2, ADJ3], jobs=6)
+    lock = threading.Lock()
+    astat = {"cases": 0, "by_kinds": {}, "samples": []}
+
+    def consume(job, printed):
+        # adjactor expressions: replayed and judged job by job (the cases are not kept)
+        bins = bfut.result()
+        for c in printed:
+            c["h"] = "a"
+        three = len(printed[0]["ops"]) == 3
+        res = vlib.run_cases(bins[2] if three else bins[1], printed, tmo=20, max_abnormal=40)
+        with lock:
+            vlib.judge_results(chk, printed, res, sig, keyf=key, harness=ADJ3 if three else ADJ2, nontrivial=nontrivial)
+            astat["cases"] += len(printed)
+            for c in printed:
+                k = "*".join(c["kinds"])
+                astat["by_kinds"][k] = astat["by_kinds"].get(k, 0) + 1
+            if len(astat["samples"]) < 2 and len(printed) > 10:
+                c = printed[len(printed) // 2]
+                astat["samples"].append({"op": c["op"], "nest": c["nest"], "ops": [{k: o[k] for k in ("k", "nd", "ni", "a", "R")} for o in c["ops"]],
+                                         "L": c["L"], "exp": {"injectify_transpose": c["exp"]["injectify_transpose"]}})
+
+    try:
+        gen = run_tlc_jobs(chk, adj_configs(chk.tier) + gen_configs(chk.tier), consume)
+        binary = bfut.result()[0]
+    finally:
+        bex.shutdown(wait=True)
     cases = []
     for tag, printed in gen:
         for c in printed:
@@ -291,25 +367,36 @@ def run(chk):
         s["failed"] = failed[0] if failed else ""
         chk.violation(s, "recorded result rejected by spec/AdjacencyV.tla, clauses %s: out=%s" % (failed, json.dumps(r["out"])[:300]),
                       {"kind": "case", "harness": HARNESS, "case": c, "result": r, "failed": failed})
-    chk.traces = len(cases)
+    chk.traces = len(cases) + astat["cases"]
     chk.exhaustive = True
-    chk.extra["cases_generated_by_tlc"] = ntlc
+    chk.extra["cases_generated_by_tlc"] = ntlc + astat["cases"]
+    chk.extra["adjactor_expression_cases"] = astat["cases"]
+    chk.extra["adjactor_expression_cases_by_operand_kinds"] = astat["by_kinds"]
     chk.extra["cases_random_driver"] = len(cases) - ntlc
     chk.extra["records_validated_by_tlc"] = len(records)
     chk.extra["records_rejected"] = len(bad)
     byop = {}
     for c in cases:
         byop[c["op"]] = byop.get(c["op"], 0) + 1
+    byop["adjexpr"] = astat["cases"]
     chk.extra["cases_by_op"] = byop
     chk.rule = ("G: every post-state of spec/AdjacencyGraph.tla (all graphs with nd, ni <= 3 and <= 2-3 images per node with duplicates and "
                 "order x 8 render types, sort, inspect; all composition pairs within the bounds; all domain/image permutation pairs; all "
                 "CSR patterns x permutation pairs; DynamicGraph from every render type (single and composite), compose, insert/erase from every "
                 "relation, clear, conversion back to Graph) and spec/AdjacencyPerm.tla (all permutations of length 0..5 x 5 constructor kinds x "
                 "apply/inverse/clone/map/concat) and spec/AdjacencyColor.tla (all colour arrays on <= 4/5 nodes with <= 4/5 declared colours x "
-                "4 constructors x inspect/clone/create_partition_graph), result predicted by the spec and compared exactly (as bags where order is not "
+                "4 constructors x inspect/clone/create_partition_graph) and spec/AdjacencyOps.tla (adjactor expressions a, a*b, (a*b)*c, a*(b*c) "
+                "built by CompositeAdjactor over operands of the classes Graph, DynamicGraph, index-interval adjactor (IndexImageIterator: identity, "
+                "shift, block, empty and overlapping intervals), CoarseFineCellMapping (unstructured and structured 2D), IndexSet<2>, "
+                "StructIndexSet<1,1,0>: every operand of the class within the node bounds, every class x every class for pairs, "
+                "Graph/interval/StructIndexSet for triples; each expression is iterated through image_begin/image_end and rendered by "
+                "Graph(t, e), Graph(t, e1, e2), DynamicGraph(t, e), DynamicGraph(t, e1, e2) for all 8 render types and by "
+                "DynamicGraph::compose), result predicted by the spec and compared exactly (as bags where order is not "
                 "contractual). V: every undirected graph on <= 4/5 nodes x storage variants x colouring orders x 18 Cuthill-McKee "
                 "options (spec/AdjacencyUG.tla) plus seeded random graphs up to 80/200 nodes, real results judged by TLC "
                 "(spec/AdjacencyV.tla). non-trivial = at least one adjacency / length >= 2; distinct = distinct (call, input)")
+    for c in astat["samples"]:
+        chk.sample(c)
     for c in cases[ntlc // 3: ntlc // 3 + 2] + cases[ntlc - 2: ntlc]:
         chk.sample({k: v for k, v in c.items() if k in ("op", "t", "g1", "g2", "exp", "kind", "v", "P", "q", "g", "call", "dp", "ip")})
     hist = {}
@@ -319,16 +406,21 @@ def run(chk):
     if hist:
         chk.extra["violation_signatures"] = sorted(([n, json.loads(k)] for k, n in hist.items()), key=lambda x: -x[0])[:40]
     chk.assumptions = ["colouring and Cuthill-McKee are exercised on symmetric square graphs only (their documented use)",
-                       "CompositeAdjactor is iterated by hand with a step bound instead of through a render constructor",
+                       "CompositeAdjactor iterators are stepped by hand with a step bound (and additionally rendered through the constructors)",
+                       "CoarseFineCellMapping is instantiated with mock mesh types that provide what it reads (entity / slice counts)",
+                       "chains of three operands use the operand classes Graph, index-interval adjactor and StructIndexSet only",
                        "Graph::permute_indices is only called where its assertion (number of indices = permutation size) holds"]
 
 
 def replay(obj):
-    binary, = vlib.build([HARNESS], jobs=4)
-    cases = [v["replay"]["case"] for v in obj["violations"] if v["replay"] and v["replay"].get("kind") == "case"]
-    res = vlib.run_cases(binary, cases, tmo=20, shards=1)
+    bins = dict(zip((HARNESS, ADJ2, ADJ3), vlib.build([HARNESS, ADJ2, ADJ3], jobs=6)))
     bad = 0
-    for c, r in zip(cases, res):
+    for v in obj["violations"]:
+        rp = v["replay"]
+        if not rp or rp.get("kind") != "case":
+            continue
+        c = rp["case"]
+        r, = vlib.run_cases(bins.get(rp.get("harness") or HARNESS, bins[HARNESS]), [c], tmo=20, shards=1)
         print(json.dumps({"case": sig(c, r), "result": r})[:1000])
         if r.get("ok") is not True:
             bad += 1
